@@ -1927,21 +1927,26 @@ class mulgrid(object):
          library is available, a KDTree structure is used to speed
          searching.
         """
-        if self.atmosphere_type == geo.atmosphere_type == 0:
-            mapping = {geo.atmosphere_column_name:self.atmosphere_column_name}
-        else: mapping = {}
         try:
             from scipy.spatial import cKDTree
             kdtree = cKDTree([col.centre for col in self.columnlist])
-            def closest_col(col):
-                r, i = kdtree.query(col.centre)
+            def closest_col(pos):
+                r, i = kdtree.query(pos)
                 return self.columnlist[i]
         except ImportError: # if don't have SciPy installed:
-            def closest_col(col):
-                coldist = np.array([norm(selfcol.centre - col.centre) for
+            def closest_col(pos):
+                coldist = np.array([norm(selfcol.centre - pos) for
                                     selfcol in self.columnlist])
                 return self.columnlist[np.argmin(coldist)]
-        for col in geo.columnlist: mapping[col.name] = closest_col(col).name
+        mapping = {}
+        if geo.atmosphere_type == 0:
+            if self.atmosphere_type == 0:
+                mapping[geo.atmosphere_column_name] = self.atmosphere_column_name
+            else:
+                # self has no single atmosphere block: use the
+                # column nearest the centre of geo
+                mapping[geo.atmosphere_column_name] = closest_col(geo.centre).name
+        for col in geo.columnlist: mapping[col.name] = closest_col(col.centre).name
         return mapping
 
     def layer_mapping(self, geo):
